@@ -777,6 +777,222 @@ theorem bInv_init (g : G) (root : Nat) : BInv g root [] [] [root] [root] where
   split := rfl
   closed := by simp
 
+/-! ### the first loop builds a breadth-first tree -/
+
+theorem depthsFrom_append (d : List (Nat × Nat)) (r1 r2 : List (Nat × Nat)) :
+    depthsFrom d (r1 ++ r2) = depthsFrom (depthsFrom d r1) r2 := by
+  simp [depthsFrom, List.foldl_append]
+
+theorem depthsFrom_keys (res : List (Nat × Nat)) : ∀ (d : List (Nat × Nat)),
+    (depthsFrom d res).map (·.1) = d.map (·.1) ++ res.map (·.2) := by
+  induction res with
+  | nil => intro d; simp [depthsFrom]
+  | cons a rest ih => intro d; rw [depthsFrom_cons, ih]; simp
+
+/-- in the depth table of a parent-before-child listing a child is one deeper than its parent -/
+theorem depthsFrom_rec (g : G) (res : List (Nat × Nat)) : ∀ (seen : List Nat)
+    (d : List (Nat × Nat)), SpanOK g seen res → seen = d.map (·.1) →
+    ∀ pc ∈ res, lookup (depthsFrom d res) pc.2 = lookup (depthsFrom d res) pc.1 + 1 := by
+  induction res with
+  | nil => intro _ _ _ _ pc hpc; simp at hpc
+  | cons a rest ih =>
+    intro seen d hok hsd pc hpc
+    rw [depthsFrom_cons]
+    have hk : (d ++ [(a.2, lookup d a.1 + 1)]).map (·.1) = seen ++ [a.2] := by simp [hsd]
+    rw [List.mem_cons] at hpc
+    rcases hpc with rfl | hpc
+    · rw [lookup_depthsFrom_of_mem rest _ pc.2 (by rw [hk]; simp),
+        lookup_depthsFrom_of_mem rest _ pc.1 (by rw [hk]; simp [hok.1.2.1]),
+        lookup_append_of_not_mem d _ _ (hsd ▸ hok.1.2.2.1),
+        lookup_append_of_mem d _ _ (hsd ▸ hok.1.2.1)]
+    · exact ih _ _ hok.2 hk.symm pc hpc
+
+theorem spanDepths_root (root : Nat) (res : List (Nat × Nat)) :
+    lookup (spanDepths root res) root = 0 := by
+  rw [spanDepths_eq, lookup_depthsFrom_of_mem res _ _ (by simp)]
+  simp [lookup]
+
+/-- depth of `v` in the table of the listing `mst` -/
+def depOf (root : Nat) (mst : List (Nat × Nat)) (v : Nat) : Nat := lookup (spanDepths root mst) v
+
+/-- appending a star at `q`: old depths are kept, the new vertices are one deeper than `q` -/
+theorem depOf_star (g : G) (root : Nat) (mst : List (Nat × Nat)) (q : Nat) (un : List Nat)
+    (hok : SpanOK g [root] (mst ++ un.map (fun v => (q, v))))
+    (hq : q ∈ [root] ++ mst.map (·.2)) :
+    (∀ x ∈ [root] ++ mst.map (·.2),
+      depOf root (mst ++ un.map (fun v => (q, v))) x = depOf root mst x) ∧
+    (∀ u ∈ un, depOf root (mst ++ un.map (fun v => (q, v))) u = depOf root mst q + 1) := by
+  have hkeys : (spanDepths root mst).map (·.1) = [root] ++ mst.map (·.2) := by
+    rw [spanDepths_eq, depthsFrom_keys]; rfl
+  have hold : ∀ x ∈ [root] ++ mst.map (·.2),
+      depOf root (mst ++ un.map (fun v => (q, v))) x = depOf root mst x := by
+    intro x hx
+    unfold depOf
+    rw [spanDepths_eq, depthsFrom_append, ← spanDepths_eq,
+      lookup_depthsFrom_of_mem _ _ x (hkeys ▸ hx)]
+  refine ⟨hold, fun u hu => ?_⟩
+  rw [← hold q hq]
+  unfold depOf
+  rw [spanDepths_eq]
+  exact depthsFrom_rec g _ [root] [(root, 0)] hok rfl (q, u)
+    (by rw [List.mem_append]; right; exact List.mem_map.2 ⟨u, hu, rfl⟩)
+
+/-- depth part of the invariant of the first loop -/
+structure BDInv (g : G) (root : Nat) (popped : List Nat) (mst : List (Nat × Nat))
+    (seen frontier : List Nat) : Prop where
+  mono : seen.Pairwise (fun a b => depOf root mst a ≤ depOf root mst b)
+  top : ∀ q, frontier.head? = some q → ∀ x ∈ seen, depOf root mst x ≤ depOf root mst q + 1
+  near : ∀ v ∈ popped, ∀ u, u < g.n → g.hasEdge v u = true →
+    depOf root mst u ≤ depOf root mst v + 1
+
+theorem bdInv_init (g : G) (root : Nat) : BDInv g root [] [] [root] [root] where
+  mono := by simp
+  top := by
+    intro q hq x hx
+    simp only [List.head?_cons, Option.some.injEq] at hq
+    simp only [List.mem_cons, List.not_mem_nil, or_false] at hx
+    subst hq; subst hx; omega
+  near := by simp
+
+theorem BDInv.step {g : G} {root : Nat} {popped : List Nat} {mst : List (Nat × Nat)}
+    {seen fr : List Nat} {q : Nat} (h : BInv g root popped mst seen (q :: fr))
+    (hd : BDInv g root popped mst seen (q :: fr))
+    (un : List Nat) (hun : un.Perm ((g.adj q).filter (fun v => !seen.contains v))) :
+    BDInv g root (popped ++ [q]) (mst ++ un.map (fun v => (q, v))) (seen ++ un) (fr ++ un) := by
+  have h' := h.step un hun
+  have hqs : q ∈ seen := by rw [h.split]; simp
+  obtain ⟨hold, hnew⟩ := depOf_star g root mst q un h'.ok (h.seen_eq ▸ hqs)
+  rw [← h.seen_eq] at hold
+  have htop := hd.top q rfl
+  have hmono := hd.mono
+  have hqfr : ∀ x ∈ fr, depOf root mst q ≤ depOf root mst x := by
+    intro x hx
+    rw [h.split, List.pairwise_append] at hmono
+    have := hmono.2.1
+    rw [List.pairwise_cons] at this
+    exact this.1 x hx
+  refine ⟨?_, ?_, ?_⟩
+  · rw [List.pairwise_append]
+    refine ⟨?_, ?_, ?_⟩
+    · refine hmono.imp_of_mem ?_
+      intro a b ha hb hab
+      rw [hold a ha, hold b hb]; exact hab
+    · refine List.pairwise_of_forall_mem_list ?_
+      intro a ha b hb
+      rw [hnew a ha, hnew b hb]
+      exact Nat.le_refl _
+    · intro a ha b hb
+      rw [hold a ha, hnew b hb]
+      exact htop a ha
+  · intro q' hq' x hx
+    have hq'm := List.mem_of_head? hq'
+    have hq'ge : depOf root mst q ≤ depOf root (mst ++ un.map (fun v => (q, v))) q' := by
+      rw [List.mem_append] at hq'm
+      rcases hq'm with hm | hm
+      · rw [hold q' (by rw [h.split]; simp [hm])]
+        exact hqfr q' hm
+      · rw [hnew q' hm]; omega
+    rw [List.mem_append] at hx
+    rcases hx with hx | hx
+    · rw [hold x hx]
+      have := htop x hx
+      omega
+    · rw [hnew x hx]
+      omega
+  · intro v hv u hu he
+    rw [List.mem_append] at hv
+    rcases hv with hv | hv
+    · have hus := h.closed v hv u hu he
+      have hvs : v ∈ seen := by rw [h.split]; simp [hv]
+      rw [hold u hus, hold v hvs]
+      exact hd.near v hv u hu he
+    · simp only [List.mem_cons, List.not_mem_nil, or_false] at hv
+      subst hv
+      rw [hold v hqs]
+      by_cases hus : u ∈ seen
+      · rw [hold u hus]
+        exact htop u hus
+      · have : u ∈ un := by
+          refine hun.mem_iff.2 ?_
+          simp only [List.mem_filter, G.mem_adj, Bool.not_eq_true', List.contains_eq_mem,
+            decide_eq_false_iff_not]
+          exact ⟨⟨hu, he⟩, hus⟩
+        rw [hnew u this]
+        exact Nat.le_refl _
+
+/-- once everything is seen, the depths of the two endpoints of every edge differ by ≤ 1 -/
+theorem BDInv.done {g : G} {root : Nat} {popped : List Nat} {mst : List (Nat × Nat)}
+    {seen frontier : List Nat} (h : BInv g root popped mst seen frontier)
+    (hd : BDInv g root popped mst seen frontier) (hroot : root < g.n)
+    (hlen : g.n ≤ seen.length) :
+    ∀ u v, u < g.n → v < g.n → g.hasEdge u v = true →
+      depOf root mst v ≤ depOf root mst u + 1 := by
+  obtain ⟨hnd, hlt⟩ := spanOK_nodup g mst [root] h.ok (by simp) (by simpa using hroot)
+  rw [← h.seen_eq] at hnd hlt
+  have hle := nodup_lt_length_le hnd hlt
+  have hfull := nodup_lt_full hnd hlt (by omega)
+  intro u v hu hv he
+  have hus := hfull u hu
+  have hvs := hfull v hv
+  have hmono := hd.mono
+  rw [h.split] at hus hvs hmono
+  rw [List.pairwise_append] at hmono
+  rw [List.mem_append] at hus hvs
+  rcases hus with hus | hus
+  · exact hd.near u hus v hv he
+  · rcases hvs with hvs | hvs
+    · have := hmono.2.2 v hvs u hus
+      omega
+    · cases frontier with
+      | nil => simp at hus
+      | cons q fr =>
+        have h1 := hd.top q rfl v (by rw [h.split]; simp [hvs])
+        have h2 : depOf root mst q ≤ depOf root mst u := by
+          rw [List.mem_cons] at hus
+          rcases hus with rfl | hus
+          · exact Nat.le_refl _
+          · have := hmono.2.1
+            rw [List.pairwise_cons] at this
+            exact this.1 u hus
+        omega
+
+/-- whatever the iteration orders, the listing built by the first loop is a breadth-first
+tree of a connected graph -/
+theorem spanBfs_depth (g : G) (hwf : g.WF) (ord : Nat → List Nat → List Nat)
+    (hord : ∀ q l, (ord q l).Perm l) (root : Nat) (hroot : root < g.n)
+    (hconn : ∀ v, v < g.n → Reach g root v) :
+    ∀ (fuel : Nat) (popped : List Nat) (mst : List (Nat × Nat)) (seen frontier : List Nat),
+      BInv g root popped mst seen frontier → BDInv g root popped mst seen frontier →
+      g.n ≤ popped.length + fuel →
+      ∀ u v, u < g.n → v < g.n → g.hasEdge u v = true →
+        depOf root (spanBfs g ord fuel mst seen frontier) v ≤
+          depOf root (spanBfs g ord fuel mst seen frontier) u + 1 := by
+  intro fuel
+  induction fuel with
+  | zero =>
+    intro popped mst seen frontier h hd hf
+    have : spanBfs g ord 0 mst seen frontier = mst := by unfold spanBfs; rfl
+    rw [this]
+    refine hd.done h hroot ?_
+    have : seen.length = popped.length + frontier.length := by rw [h.split]; simp
+    omega
+  | succ fuel ih =>
+    intro popped mst seen frontier h hd hf
+    cases frontier with
+    | nil =>
+      have : spanBfs g ord (fuel + 1) mst seen [] = mst := by unfold spanBfs; rfl
+      rw [this]
+      exact hd.done h hroot (h.full hwf hconn)
+    | cons q fr =>
+      rw [spanBfs_cons]
+      by_cases hlt : seen.length < g.n
+      · rw [if_pos hlt]
+        refine ih _ _ _ _ (h.step _ (hord q _)) (hd.step h _ (hord q _)) ?_
+        simp only [List.length_append, List.length_cons, List.length_nil]
+        omega
+      · rw [if_neg hlt]
+        exact hd.done h hroot (by omega)
+
 /-! ### second loop (depth-first traversal of the tree) -/
 
 theorem spanOK_child_not_seen (g : G) (res : List (Nat × Nat)) : ∀ (seen : List Nat),
